@@ -41,7 +41,9 @@ namespace details {
         read,
         write,
         compare_128bit_uuid,
-        compare_value
+        compare_value,
+        // checks, whether the attribute could be written, without writing it (Prepare Write Request)
+        check_write
     };
 
     struct attribute_access_arguments
@@ -131,7 +133,7 @@ namespace details {
             void* server )
         {
             return attribute_access_arguments{
-                attribute_access_type::write,
+                attribute_access_type::check_write,
                 0,
                 0,
                 0,
